@@ -79,13 +79,13 @@ def plan(tier):
     if tier == "quick":
         return [small + [{"kind": "big", "pf": "rep", "n": 150}],
                 [exact("rep1", 2, ["asg"])]]
-    ctx2 = ["asg", "if", "init"]
+    ctx2 = ["asg", "if"]
     parts = [small,
              [exact("rep", 2, ctx2, bins(REP_BIN[:4]))], [exact("rep", 2, ctx2, bins(REP_BIN[4:8]))], [exact("rep", 2, ctx2, bins(REP_BIN[8:]))],
              [exact("rep", 2, ctx2, ["cond", "pcond"] + OTHER_FAMS)],
              [exact("rep0", 3, ["asg"], bins(REP1_BIN[:5]))], [exact("rep0", 3, ["asg"], bins(REP1_BIN[5:]))],
              [exact("rep0", 3, ["asg"], ["cond", "pcond"] + OTHER_FAMS)],
-             [{"kind": "big", "pf": "rep", "n": 2000}]]
+             [{"kind": "big", "pf": "rep", "n": 1500}]]
     return parts
 
 
